@@ -24,6 +24,10 @@ HIST_RULE = ("hist driver: seeded random histories (login, proxied request with 
              "(mode x forward-auth x inactivity x ACR x token lifetime); distinct = (mode, op, cookie state, store state, provider plan, status, forwarded, token written, provider contacted, post state); "
              "non-trivial = a session cookie was presented. ")
 
+MANAGER_SECTIONS = ['Manager/' + n for n in ('create', 'delete', 'deleteForExternalID', 'getOrRefresh', 'refresh', 'deleteForKey', 'update', 'acquireLock', 'readerGet', 'getForTicket', 'redisRead', 'redisWrite', 'redisUpdate', 'redisDelete', 'redisMakeLock', 'memoryUpdate', 'memoryMakeLock', 'redisLockAcquire', 'redisLockRelease')] + \
+    ['pkg/session/session_manager.go', 'pkg/session/session_reader.go', 'pkg/session/store_redis.go', 'pkg/session/store_memory.go', 'pkg/session/lock.go']
+MANAGER_TIE = (" The order lock -> re-read -> re-check -> grant (presenting the RE-READ token) -> write-back -> release, the lock around session creation, the one-command store update (SET XX KEEPTTL) and the error classes "
+               "that the model assumes are read off a statement-by-statement translation of session_manager.go / session_reader.go / store_*.go regenerated on every run (Gen/Manager) and decided by the kernel (Proofs/GenTie/C07).")
 SCHED_RULE = ("sched driver: 2-3 concurrent requests on one session (manual refresh, proxied request with refresh due, session info, logout, local logout, front-channel logout, and the callback of a NEW login that the provider gives the same sid = same store key), each on its own replica over one miniredis, "
               "executed under explicit schedules: all schedules with at most two preemptions of 9 process pairs (A runs i steps, B runs j, then round-robin), random 3-process schedules, crash at every step of the refresher, "
               "and the in-memory store with the provider call as scheduling point; distinct = (store, processes, executed trace); non-trivial = more than one process actually interleaves.")
@@ -90,8 +94,8 @@ PROPS = {
         'assumptions': ["H-JWS"],
     },
     'C05': {
-        'proofs': ['Ww.Proofs.C05'],
-        'gen_sections': [],
+        'proofs': ['Ww.Proofs.C05', 'Ww.Proofs.GenTie.C07'],
+        'gen_sections': MANAGER_SECTIONS,
         'drivers': [{'name': 'sched'}, {'name': 'hist'}, {'name': 'cook'}, {'name': 'lockwait'}],
         'reasons': ['C05.'],
         'class_fields': _merge(HIST_CLASS, {'sched': ['store', 'procs', 'crash', 'trace', 'statuses', 'exists'], 'jar': ['after', 'status', 'names', 'sso'], 'setcookie': ['op', 'class', 'clear', 'path', 'domain']}),
@@ -100,15 +104,15 @@ PROPS = {
         'rule': SCHED_RULE + " hist driver: every logout variant is followed by a request with the old cookie. cook driver: the jar of an RFC 6265 browser after each logout variant in 8 configurations (ingress with path prefix, SSO domain spellings) - the session cookie must be gone.",
         'level_text': "Proof: in the small-step model (one transition = one store command / lock script / provider call of one process; any number of refreshing, reading and logging-out processes and of new logins landing on the same store key; any schedule; crashes) a deleted "
                       "session entry never becomes readable with the old cookie again (the refresh write-back is update-only-if-present in ONE step, and a new login writes only under the refresh lock, so a write-back cannot land on it), so for every schedule pre ++ [delete of a logout] ++ post nothing the old cookie can read exists at the end and at every later moment; "
-                      "a request that had not reached the provider by then never does. The model is tied to the real handlers step by step by executing explicit schedules on real replicas over one miniredis (pre-hook = scheduling point).",
+                      "a request that had not reached the provider by then never does. The model is tied to the real handlers step by step by executing explicit schedules on real replicas over one miniredis (pre-hook = scheduling point)." + MANAGER_TIE,
         'level_note': "Trusted: Lean kernel; Redis command atomicity and redislock scripts (through miniredis); one store command is one atomic step (goroutine scheduling inside a command is not observable); cookie clearing is C14.",
         'technique': 'Lean 4 inductive invariant over an interleaving model (unbounded processes and schedule length) + deterministic schedule executor on real replicas',
         'trusted': ["Redis/miniredis command semantics (Appendix C)", "H-AEAD"],
         'assumptions': ["store commands are atomic steps"],
     },
     'C07': {
-        'proofs': ['Ww.Proofs.C07'],
-        'gen_sections': [],
+        'proofs': ['Ww.Proofs.C07', 'Ww.Proofs.GenTie.C07'],
+        'gen_sections': MANAGER_SECTIONS,
         'drivers': [{'name': 'sched'}, {'name': 'fault', 'timeout': 1500}],
         'reasons': ['C07.'],
         'class_fields': {'sched': ['store', 'procs', 'crash', 'trace', 'statuses', 'exists'], 'fault': ['handler', 'prestate', 'fpos', 'fkind', 'fcount', 'status', 'contacted'], 'faultdry': ['handler', 'prestate']},
@@ -116,15 +120,15 @@ PROPS = {
         'rule': SCHED_RULE + " fault driver (as C11): provider faults at the grant, incl. an answer LOST in transit after the provider processed the grant - the number of times the refresh token is sent is counted.",
         'level_text': "Proof: inductive invariant (7 fields) over the small-step model for any number of processes and any schedule: mutual exclusion between lock and unlock; under the lock the re-read token is the provider's current one; "
                       "hence every presentation is a grant, the presented generations are strictly increasing - no refresh token is presented twice - and the stored pair is the provider's current pair whenever nobody is in the critical section. "
-                      "Within the lock lease and crash-free (the property's proviso). Tied step by step on Redis; on the in-memory store the provider log and the statuses are checked by the Spec (the provider call is its only scheduling point).",
+                      "Within the lock lease and crash-free (the property's proviso). Tied step by step on Redis; on the in-memory store the provider log and the statuses are checked by the Spec (the provider call is its only scheduling point)." + MANAGER_TIE,
         'level_note': "Trusted: Lean kernel; redislock obtain/release = SET NX PX / delete-if-token (modelled as one step each, tied by the executor); lease not expiring while held (H-LEASE); the cooldown outlasts a schedule (schedules run in milliseconds).",
         'technique': 'Lean 4 inductive invariant (grind) over an interleaving model + deterministic schedule executor; provider-side presentation log as observation',
         'trusted': ["H-LEASE", "redislock contract"],
         'assumptions': ["H-LEASE"],
     },
     'C10': {
-        'proofs': ['Ww.Proofs.C10'],
-        'gen_sections': [],
+        'proofs': ['Ww.Proofs.C10', 'Ww.Proofs.GenTie.C07'],
+        'gen_sections': MANAGER_SECTIONS,
         'drivers': [{'name': 'sched'}, {'name': 'hist'}],
         'reasons': ['C10.'],
         'class_fields': _merge(HIST_CLASS, {'sched': ['store', 'procs', 'crash', 'trace', 'statuses', 'exists']}),
@@ -132,7 +136,7 @@ PROPS = {
         'rule': SCHED_RULE + " Crash cases kill the refreshing / logging-out process at each of its steps, let the other process run, let the lock lease pass (FastForward) and read TTLs, lock key and the session endpoint. hist driver: TTL after every step of every history.",
         'level_text': "Proof: TTL invariant over the small-step model with crash events at arbitrary points (an update never drops the expiry and never creates a key); a finishing refresh removes its lock; a crashed holder blocks others only until "
                       "the lease passes, after which the next process obtains the lock; a session left stale by a crash between the provider's answer and the write-back is rejected cleanly (401, nothing written, lock released). "
-                      "TTL values (<= creation + max lifetime, never extended) are checked on the implementation after every step of every history and schedule.",
+                      "TTL values (<= creation + max lifetime, never extended) are checked on the implementation after every step of every history and schedule." + MANAGER_TIE,
         'level_note': "Trusted: Lean kernel; Redis expiry semantics via miniredis (SET XX KEEPTTL, PX leases, FastForward); crash = the process's connection goes dead at a store-command boundary.",
         'technique': 'Lean 4 invariant with crash events + crash-point enumeration on real replicas (TTL / lock key / follow-up request)',
         'trusted': ["Redis/miniredis expiry semantics"],
@@ -155,8 +159,8 @@ PROPS = {
         'assumptions': ["H-CLOCK", "H-AEAD"],
     },
     'C11': {
-        'proofs': ['Ww.Proofs.C11', 'Ww.Proofs.GenTie.C01'],
-        'gen_sections': ['Meta', 'Dec/sessionCanRefresh', 'Dec/sessionShouldRefresh', 'Dec/sessionYieldsToken', 'Dec/acrValidate', 'pkg/session/session.go'],
+        'proofs': ['Ww.Proofs.C11', 'Ww.Proofs.GenTie.C01', 'Ww.Proofs.GenTie.C07'],
+        'gen_sections': MANAGER_SECTIONS + ['Meta', 'Dec/sessionCanRefresh', 'Dec/sessionShouldRefresh', 'Dec/sessionYieldsToken', 'Dec/acrValidate', 'pkg/session/session.go'],
         'drivers': [{'name': 'fault', 'timeout': 1500}, {'name': 'hist'}],
         'reasons': ['C11.'],
         'class_fields': _merge(HIST_CLASS, {'fault': ['handler', 'prestate', 'fpos', 'fkind', 'fcount', 'status', 'upauth'], 'faultdry': ['handler', 'prestate']}),
@@ -283,8 +287,8 @@ PROPS = {
         'assumptions': ["H-BROWSER"],
     },
     'C08': {
-        'proofs': ['Ww.Proofs.C08', 'Ww.Proofs.C07', 'Ww.Proofs.GenTie.C01'],
-        'gen_sections': ['Meta', 'Consts', 'pkg/session/data.go', 'Dec/sessionCanRefresh', 'Dec/sessionShouldRefresh', 'Dec/sessionYieldsToken', 'Dec/acrValidate', 'pkg/session/session.go'],
+        'proofs': ['Ww.Proofs.C08', 'Ww.Proofs.C07', 'Ww.Proofs.GenTie.C01', 'Ww.Proofs.GenTie.C07'],
+        'gen_sections': MANAGER_SECTIONS + ['Meta', 'Consts', 'pkg/session/data.go', 'Dec/sessionCanRefresh', 'Dec/sessionShouldRefresh', 'Dec/sessionYieldsToken', 'Dec/acrValidate', 'pkg/session/session.go'],
         'drivers': [{'name': 'meta'}, {'name': 'hist'}, {'name': 'sched'}, {'name': 'lockwait'}],
         'reasons': ['C08.'],
         'class_fields': _merge(META_CLASS, HIST_CLASS, {'sched': ['store', 'procs', 'crash', 'trace', 'statuses', 'exists']}),
